@@ -155,6 +155,9 @@ def adaptive(
         raise ValueError("min_multiplier must be >= 1.0.")
     if max_multiplier < min_multiplier:
         raise ValueError("max_multiplier must be >= min_multiplier.")
+    if not (math.isfinite(min_multiplier) and math.isfinite(max_multiplier)):
+        # inf/nan pass the comparisons above; a zero fallback delay times inf is NaN.
+        raise ValueError("min_multiplier and max_multiplier must be finite.")
 
     fallback_fn = _normalize_strategy(fallback)
     return AdaptiveStrategy(
